@@ -35,8 +35,16 @@ if os.path.exists(idx):
         m = {"id": "catalogue-" + mid, "patch": pf, "properties": [REMAP.get(mid, mid.split("-")[0])], "what": row[2][:240]}
         if mid in GAPS: m["known_gap"] = GAPS[mid]
         out.append(m)
+# behaviour-preserving refactors (mutants/benign): the checks of the properties anchored in the touched code must stay silent
+GROUP = {"01": ["C03", "C07"], "02": ["C01", "C02", "C15"], "03": ["C01", "C02", "C13", "C14", "C15", "C16"], "04": ["C17", "C08"],
+         "05": ["C02", "C01"], "06": ["C04", "C02", "C12"], "07": ["C04", "C01", "C12", "C17", "C07", "C06", "C08"], "08": ["C08", "C15"],
+         "09": ["C07"], "10": ["C06", "C13", "C08"], "11": ["C06", "C14", "C16", "C02"], "12": ["C06", "C13", "C20"], "13": ["C14", "C01"],
+         "14": ["C20", "C08"], "15": ["C18", "C08"], "16": ["C05", "C09", "C06"], "17": ["C19"], "18": ["C08", "C16"]}
 for f in sorted(glob.glob(os.path.join(V, "mutants", "benign", "*.diff"))):
-    out.append({"id": "benign-" + os.path.basename(f)[:-5], "patch": os.path.relpath(f, V), "properties": [os.path.basename(f)[:3].upper()], "expect": "silent",
+    b = os.path.basename(f)[:-5]
+    parts = b.split("-")
+    props = GROUP.get(parts[1], ["all"]) if b.startswith("b") and len(parts) > 2 else ["C17", "C08"]
+    out.append({"id": "benign-" + b, "patch": os.path.relpath(f, V), "properties": props, "expect": "silent",
                 "what": "behaviour-preserving refactor: the check must stay silent"})
 json.dump(out, open(os.path.join(V, "mutants", "index.json"), "w"), indent=1)
 print(len(out), "mutants")
